@@ -440,5 +440,5 @@ pub fn replay(id: &str, case: &serde_json::Value) -> i32 {
             return 2;
         }
     };
-    crate::core::replay_case::<Case>(id, case, 3, |c| env.rt.block_on(run_case(&env.certs, c)))
+    crate::core::replay_case::<Case>(id, case, 3, |c| match crate::core::catch(|| env.rt.block_on(run_case(&env.certs, c))) { Ok(o) => o, Err(p) => Outcome::fail(format!("panic:{}", crate::core::panics::normalise(&p)), format!("panicked: {p}")) })
 }
